@@ -94,6 +94,7 @@ func c06randRun(env sched.Env) *sched.Report {
 			rr := r
 			randInt = func() int { return rr }
 			rep.Execs++
+			sched.Progress(nil)
 			if h := New(service.LoadBalancePolicy_RANDOM).PickHost(hs); in(h) < 0 {
 				fail("random-picks-outside-the-list", fmt.Sprintf("n=%d draw=%d", n, r))
 			}
@@ -120,6 +121,7 @@ func c06randRun(env sched.Env) *sched.Report {
 					idx := 0
 					randInt = func() int { v := seq[idx%2]; idx++; return v + 3*n*idx }
 					rep.Execs++
+					sched.Progress(nil)
 					h := New(service.LoadBalancePolicy_LEAST_CONNECTION).PickHost(hs)
 					pi := in(h)
 					if pi < 0 {
@@ -143,6 +145,7 @@ func c06randRun(env sched.Env) *sched.Report {
 		// empty list
 		for _, p := range []service.LoadBalancePolicy{service.LoadBalancePolicy_RANDOM, service.LoadBalancePolicy_LEAST_CONNECTION, service.LoadBalancePolicy_ROUND_ROBIN} {
 			rep.Execs++
+			sched.Progress(nil)
 			if New(p).PickHost(nil) != nil {
 				fail("pick-from-empty-list-not-nil", p.String())
 			}
